@@ -20,6 +20,7 @@ R(v, log) == [v |-> v, re |-> FALSE, log |-> log]
 LitVal(l) ==
   CASE l = "n0" -> MkInt(0) [] l = "n1" -> MkInt(1) [] l = "n2" -> MkInt(2) [] l = "n5" -> MkInt(5) [] l = "nmax" -> MkInt(2147483647)
     [] l = "f05" -> MkDy(1, -1) [] l = "f2" -> MkDy(1, 1) [] l = "f15" -> MkDy(3, -1)
+    [] l = "f0" -> MkDy(0, 0) [] l = "f1" -> MkDy(1, 0) [] l = "f5" -> MkDy(5, 0)
     [] l = "unit" -> U [] l = "tru" -> TT [] l = "fls" -> FF
     [] l = "syma" -> MkSym("a") [] l = "symb" -> MkSym("b")
     [] l = "strs" -> [t |-> "str", v |-> <<115>>] [] l = "stre" -> [t |-> "str", v |-> <<>>] [] l = "strab" -> [t |-> "str", v |-> <<97, 98>>]
@@ -137,6 +138,9 @@ Eval(t, cur, H, log, fuel) ==
                   [] l = "xor" -> B(Truthy(x) # Truthy(y))
                   [] l = "acc" -> AccessV(x, y)
                   [] OTHER -> SKIP, b.log)
+
+\* a whole program is the body of an expression applied to the input value: a re-apply at its top level starts it again
+Run(t, cur, H, fuel) == ApplyV([t |-> "expr", body |-> t], cur, FALSE, H, <<>>, fuel)
 
 \* else-chains are evaluated arm by arm: the chain  A1 |> A2 |> ... |> X  with Ai conditionals
 \* returns [taken |-> BOOLEAN, r |-> result]  : whether some arm of the chain t was selected
